@@ -407,6 +407,11 @@ func (x *Exec) enterLoop(fr *Frame, lr *loopRec, st *State) *State {
 			hk = append(hk, k)
 		}
 	}
+	type havocRec struct {
+		k, nh string
+		t     types.Type
+	}
+	var havocked []havocRec
 	sort.Strings(hk)
 	for _, k := range hk {
 		t := lr.modHeaps[k]
@@ -432,6 +437,7 @@ func (x *Exec) enterLoop(fr *Frame, lr *loopRec, st *State) *State {
 			}
 		}
 		x.assume(st, fmt.Sprintf("(forall ((%s Int)) (! (=> %s (= (select %s %s) (select %s %s))) :pattern ((select %s %s))))", q, And(conds...), nh, q, x.heap0(t), q, nh, q))
+		havocked = append(havocked, havocRec{k, nh, t})
 	}
 	// heaps in which the loop only initialises regions it allocates itself keep
 	// their value: allocation is modelled as learning the contents of a region
@@ -452,6 +458,23 @@ func (x *Exec) enterLoop(fr *Frame, lr *loopRec, st *State) *State {
 			g := x.evalClause(x.invCtx(fr, lr, st), cl)
 			x.assume(st, g)
 			x.note(fmt.Sprintf("ASSUMED (not proved) at loop %s of %s: %s", name, FuncKey(fr.fn), cl.Src))
+		}
+	}
+	for _, hr := range havocked {
+		if !x.maskKeys[hr.k] {
+			continue
+		}
+		hasMod := false
+		for _, mr := range x.modRegs {
+			if mr.key == hr.k {
+				hasMod = true
+			}
+		}
+		if !hasMod {
+			// every pre-existing region keeps its entry contents (frame-keep proves it
+			// at each back edge), so the restriction to them is the entry one
+			fn := "mask_" + sanitize(hr.k)
+			x.assume(st, "(= ("+fn+" "+hr.nh+" "+x.entry.nr+") ("+fn+" "+x.heap0(hr.t)+" "+x.entry.nr+"))")
 		}
 	}
 	x.autoInvariants(fr, lr, st, pre)
